@@ -75,6 +75,8 @@ Q.__pos__ = lambda a: a
 def _q_pow(a, b):
     if isinstance(b, int):
         return Q(Fraction.__pow__(a, b))
+    if not isinstance(b, (float, Fraction)):
+        return NotImplemented
     return float(a) ** float(b)
 
 
@@ -463,6 +465,8 @@ class _Num:
         return wrap(a / b)
 
     def __pow__(s, o):
+        if _defer(o):
+            return NotImplemented
         if isinstance(o, int) and not isinstance(o, bool) and 0 <= o <= 8:
             r = 1
             for _ in range(o):
@@ -478,6 +482,8 @@ class _Num:
         return upow(s, o)
 
     def __rpow__(s, o):
+        if _defer(o):
+            return NotImplemented
         return upow(o, s)
     __hash__ = None
 
